@@ -53,9 +53,6 @@ def check_hugr(ctx: Ctx, focus: str, h, case, sig0: dict, expected_doc=None, for
             return bad("lossless", "same observable structure", diff, "SameUpToRenumbering(s, Load(Serialize(s)))")
     if focus == "C05" and foreign_doc is not None:
         # a schema-valid document not written by this library: same HUGR, order ports addressed without an offset
-        f = dict(d1)
-        c1, _, _ = S.canon_doc(d1)
-        # re-write d1's edges: null out exactly the endpoints the model's foreign document nulls (matched through the canonical numbering)
         f = _as_foreign(d1, expected_doc, foreign_doc)
         if f is None:
             raise MachineryError("cannot align foreign document with the implementation's document")
@@ -74,52 +71,19 @@ def check_hugr(ctx: Ctx, focus: str, h, case, sig0: dict, expected_doc=None, for
     return False
 
 
-def _as_foreign(d1, expected_doc, foreign_doc):
-    """d1 with the endpoints that HugrSerial!ForeignWrite writes as null set to null."""
-    from collections import Counter
-    if expected_doc is None:
-        return None
-    ce, _, _ = S.canon_doc(expected_doc)
-    # positions in the *expected* numbering -> which (edge) have null in foreign: compare edge multisets pairwise in model order
-    exp_edges = expected_doc["edges"]
-    for_edges = foreign_doc["edges"]
-    if len(exp_edges) != len(for_edges):
-        return None
-    # map expected edge -> list of foreign versions (same order in both lists by construction of DocJson over the same link set)
-    pairs = Counter()
-    null_of = {}
-    for ee, fe in zip(sorted(exp_edges, key=json.dumps), sorted(for_edges, key=lambda e: json.dumps([[e[0][0], -1 if e[0][1] is None else e[0][1]], [e[1][0], -1 if e[1][1] is None else e[1][1]]]))):
-        pass
-    # simpler and robust: an endpoint is an order endpoint iff its offset equals the order offset in the expected doc AND foreign has null there;
-    # derive the set of (node, offset, dir) order endpoints from the model documents
-    order_src = {(e[0][0], e[0][1]) for e, f in _zip_edges(exp_edges, for_edges) if f[0][1] is None}
-    order_dst = {(e[1][0], e[1][1]) for e, f in _zip_edges(exp_edges, for_edges) if f[1][1] is None}
-    # translate model numbering -> d1 numbering through canonical forms
+def _as_foreign(d1, expected_doc, orderports):
+    """d1 with every order endpoint written without an offset, as the reference writer does.  `orderports[k]` =
+    <<order offset out, order offset in>> (or -1) of node k of the *model's* document; nodes are aligned through the
+    pre-order numbering of both documents."""
     m_order = _preorder(expected_doc)
     r_order = _preorder(d1)
     if len(m_order) != len(r_order):
         return None
-    m2r = {m: r for m, r in zip(m_order, r_order)}
-    osrc = {(m2r[n], o) for n, o in order_src}
-    odst = {(m2r[n], o) for n, o in order_dst}
+    r2m = {r: m for m, r in zip(m_order, r_order)}
     out = dict(d1)
-    out["edges"] = [[[e[0][0], None if (e[0][0], e[0][1]) in osrc else e[0][1]], [e[1][0], None if (e[1][0], e[1][1]) in odst else e[1][1]]]
-                    for e in d1["edges"]]
+    out["edges"] = [[[e[0][0], None if e[0][1] == orderports[r2m[e[0][0]]][0] else e[0][1]],
+                     [e[1][0], None if e[1][1] == orderports[r2m[e[1][0]]][1] else e[1][1]]] for e in d1["edges"]]
     return out
-
-
-def _zip_edges(exp_edges, for_edges):
-    """pair expected and foreign edges: they are emitted from the same link bag, so after normalising null to the
-    order offset of the expected edge they coincide; pair greedily by node endpoints and non-null offsets."""
-    rest = list(for_edges)
-    for e in exp_edges:
-        for k, f in enumerate(rest):
-            if f[0][0] == e[0][0] and f[1][0] == e[1][0] and f[0][1] in (None, e[0][1]) and f[1][1] in (None, e[1][1]):
-                yield e, f
-                rest.pop(k)
-                break
-        else:
-            yield e, e
 
 
 def _preorder(doc):
@@ -161,7 +125,7 @@ def run_store_states(ctx: Ctx, focus: str, quick: bool) -> None:
                 ctx.violation({"check": "replay", "action": ev["a"]}, {"hist": hist}, "call succeeds", str(e)[:200], clause="HugrStore")
                 return
             exp = S.model_doc_to_json(ln["doc"], ln["wireops"])
-            foreign = S.model_doc_to_json(ln["foreign"], ln["wireops"])
+            foreign = ln["orderports"]
             deleted = any(e["a"] == "DeleteNode" for e in hist)
             if deleted or len(ln["doc"]["edges"]) >= 2:
                 ctx.nontriv(hist)
